@@ -45,3 +45,29 @@ PROPS["C13"] = {
     "stubs": ["math.Log10 evaluated natively on the concrete replica count"],
     "assumptions": [],
 }
+
+PROPS["C14"] = {
+    "harnesses": [
+        {"pkg": "types", "name": "VerifC14_Compare", "quick": {}, "thorough": {}, "reach": ["end", "equal", "different"],
+         "bounds": {"strings": "arbitrary, len<=3", "ints": "full int64", "containers": "2 args, 1 env entry, 1 dependency, exec readiness + http liveness probe"}},
+    ],
+    "stubs": ["reflect.DeepEqual: structural equality intrinsic over interpreter values"],
+    "assumptions": [],
+}
+
+PROPS["C07"] = {
+    "harnesses": [
+        {"pkg": "loader", "name": "VerifC07_Cycle3", "quick": {}, "thorough": {}, "reach": ["end", "cyclic", "acyclic", "undefined"],
+         "bounds": {"N": 3, "edges": "all 2^9 adjacency matrices incl. self loops + optional dangling edge", "map order": "sorted"}},
+        {"pkg": "loader", "name": "VerifC07_Cycle3Orders", "thorough": {"wall": 3000}, "reach": ["end", "cyclic", "acyclic", "undefined"],
+         "bounds": {"N": 3, "map order": "every iteration order (choice points)"}},
+        {"pkg": "loader", "name": "VerifC07_Cycle4", "thorough": {"wall": 3000}, "reach": ["end", "cyclic", "acyclic", "undefined"],
+         "bounds": {"N": 4, "edges": "all 2^16 adjacency matrices + optional dangling edge", "map order": "sorted"}},
+        {"pkg": "types", "name": "VerifC07_Order3", "quick": {}, "thorough": {},
+         "bounds": {"N": 3, "edges": "all DAGs over index order", "markings": "enabled/disabled/foreground per process", "map order": "every iteration order"}},
+        {"pkg": "types", "name": "VerifC07_Order4", "thorough": {"wall": 3000},
+         "bounds": {"N": 4, "map order": "sorted"}},
+    ],
+    "stubs": [],
+    "assumptions": ["replicas = 1 for processes that are depended upon (see known finding on replicated dependencies)", "project values built directly (YAML decoding outside)"],
+}
